@@ -14,25 +14,28 @@ import (
 func init() { register("C09", runC09) }
 
 type c09Def struct {
-	file           string
-	funcLv, scope  int
-	line           int // 1-based line of the assignment
+	file          string
+	funcLv, scope int
+	line          int // 1-based line of the assignment
 }
 
 type c09World struct {
-	files map[string]string
-	defs  map[string][]c09Def // global name → its definitions (one per file)
-	user  string              // the file that uses the globals
-	uses  map[string][2]int   // global name → (line, col) of a use in the user file
-	tieMod bool               // two equally ranked module files
-	sibMod bool               // same-named modules in sibling directories, required from inside one of them
+	files   map[string]string
+	defs    map[string][]c09Def // global name → its definitions (one per file)
+	user    string              // the file that uses the globals
+	uses    map[string][2]int   // global name → (line, col) of a use in the user file
+	tieMod  bool                // two equally ranked module files
+	sibMod  bool                // same-named modules in sibling directories, required from inside one of them
+	dupCls  bool                // an annotation class declared in several files
+	clsLine int                 // the line of the user file that names it in ---@type
 }
 
 // genC09World: files defining globals, some of them in several files:
-//   pattern A: top level, different lines            (a dominating definition exists)
-//   pattern B: top level, the same line number       (none dominates)
-//   pattern C: nested (do-block) earlier vs top level later (none dominates)
-//   pattern D: top level earlier vs nested later     (the top-level one dominates)
+//
+//	pattern A: top level, different lines            (a dominating definition exists)
+//	pattern B: top level, the same line number       (none dominates)
+//	pattern C: nested (do-block) earlier vs top level later (none dominates)
+//	pattern D: top level earlier vs nested later     (the top-level one dominates)
 func genC09World(r *lib.Rng) *c09World {
 	w := &c09World{files: map[string]string{}, defs: map[string][]c09Def{}, uses: map[string][2]int{}}
 	nf := 2 + r.Intn(3)
@@ -87,6 +90,7 @@ func genC09World(r *lib.Rng) *c09World {
 			perm[i] = i
 		}
 		r.Shuffle(nf, func(i, j int) { perm[i], perm[j] = perm[j], perm[i] })
+		w.dupCls = true
 		for _, i := range perm[:k] {
 			lines[i] = append(lines[i], "---@class DupCls", fmt.Sprintf("---@field f%d number", i), fmt.Sprintf("local dupv%d = {}", i), fmt.Sprintf("print(dupv%d)", i))
 		}
@@ -104,6 +108,11 @@ func genC09World(r *lib.Rng) *c09World {
 	for _, n := range names {
 		w.uses[n] = [2]int{len(u), len("print(")}
 		u = append(u, fmt.Sprintf("print(%s(1, 2))", n))
+	}
+	if w.dupCls {
+		// the type name in an annotation: which declaration hover and go-to-definition show
+		w.clsLine = len(u)
+		u = append(u, "---@type DupCls", "local dcv = {}", "print(dcv)")
 	}
 	if r.Chance(1, 3) {
 		w.tieMod = true
@@ -200,6 +209,18 @@ func c09Observe(dir string, w *c09World, order []string) (map[string]string, err
 		}
 		sort.Strings(rl)
 		obs["refs:"+n] = strings.Join(rl, " ")
+	}
+	if w.dupCls {
+		if h, err := sess.Hover(w.user, w.clsLine, len("---@type D")); err == nil {
+			obs["clshover"] = lib.Trunc(strings.ReplaceAll(h, "\n", " "), 160)
+		}
+		if locs, err := sess.Definition(w.user, w.clsLine, len("---@type D")); err == nil {
+			var dl []string
+			for _, l := range locs {
+				dl = append(dl, fmt.Sprintf("%s:%d", sess.Rel(l.URI), l.Range.Start.Line))
+			}
+			obs["clsdef"] = strings.Join(dl, " ") // in answer order: the first one is what the editor jumps to
+		}
 	}
 	if w.tieMod {
 		ul := strings.Split(w.files[w.user], "\n")
